@@ -434,6 +434,14 @@ example : (prepare false exStmt
     .ok "SELECT id FROM t WHERE ( a = 7 OR id = 1 ) AND b = ? ORDER BY id".toList := by
   decide +kernel
 
+/-- the `%s` style: a `?` in the caller's own text (a literal of a static condition, a quoted column
+name) reaches the statement as written; only the generated marks are `%s`, one per bound value -/
+example : (prepare true exStmt
+      { args := [some (.raw "note = 'why?'".toList), some (.triple "\"ok?\"".toList "in".toList (.list [.int 1, .int 2]))],
+        kwargs := [] }).map (fun p => (p.text, p.params.length)) =
+    .ok ("SELECT id FROM t WHERE  note = 'why?'  AND \"ok?\" IN (%s, %s) ORDER BY id".toList, 2) := by
+  decide +kernel
+
 end examples
 
 end C15
